@@ -6,6 +6,8 @@ import (
 	"io"
 
 	"github.com/buildbarn/bb-storage/pkg/digest"
+
+	"google.golang.org/grpc/status"
 )
 
 type casValidatingReader struct {
@@ -71,6 +73,14 @@ func (r *casValidatingReader) doRead(p []byte) (int, error) {
 		}
 		r.source.notifyDataValid()
 		return n, io.EOF
+	} else if readErr == io.ErrUnexpectedEOF {
+		// Readers such as decompressors use io.ErrUnexpectedEOF
+		// to report that their input got truncated. Consumers
+		// that call io.ReadFull() on us cannot distinguish this
+		// from a regular short read at the end of the stream,
+		// causing truncated data to be treated as valid. Don't
+		// propagate this error value verbatim.
+		return 0, status.Error(r.source.errorCode, "Source ended unexpectedly")
 	} else if readErr != nil {
 		return 0, readErr
 	}
